@@ -18,7 +18,7 @@ import (
 	"cmp"
 	"log/slog"
 	"net/http"
-	"strconv"
+	"strings"
 	"time"
 )
 
@@ -70,22 +70,29 @@ func calculateCurrentAge(
 	h http.Header,
 	date, requestTime, responseTime time.Time,
 ) *Age {
-	ageVal := 0
-	if ageStr := h.Get("Age"); ageStr != "" {
-		ageVal, _ = strconv.Atoi(ageStr)
-	}
+	// RFC 9111 §5.1: Age is a non-negative integer; an invalid value is ignored.
+	ageVal, _ := RawDeltaSeconds(strings.TrimSpace(h.Get("Age"))).Value()
 	apparentAge := max(responseTime.Sub(date), 0)
 	responseDelay := max(responseTime.Sub(requestTime), 0)
-	correctedAgeValue := time.Duration(ageVal)*time.Second + responseDelay
+	correctedAgeValue := addDuration(ageVal, responseDelay)
 	correctedInitialAge := max(apparentAge, correctedAgeValue)
 	residentTime := max(clock.Since(responseTime), 0)
 	return &Age{
-		Value:     correctedInitialAge + residentTime,
+		Value:     addDuration(correctedInitialAge, residentTime),
 		Timestamp: clock.Now(),
 	}
 }
 
 const maxDuration = 1<<63 - 1
+
+// addDuration adds two non-negative durations, saturating at [maxDuration]
+// instead of wrapping around.
+func addDuration(a, b time.Duration) time.Duration {
+	if a > maxDuration-b {
+		return maxDuration
+	}
+	return a + b
+}
 
 // FreshnessCalculator describes the interface implemented by types that can
 // calculate the freshness of a cached response based on request and response
@@ -175,7 +182,7 @@ func (f *freshnessCalculator) CalculateFreshness(
 
 	isStale := currentAge.Value >= usefulLife
 	// If max-stale present, allow extra staleness
-	if isStale && maxStale > 0 && currentAge.Value < max(usefulLife+maxStale, maxStale) {
+	if isStale && maxStale > 0 && currentAge.Value < addDuration(usefulLife, maxStale) {
 		isStale = false
 	}
 
